@@ -392,7 +392,11 @@ fn create_locales_enum(
     } else {
         quote!()
     };
-    let ld = icu_locid_transform::LocaleDirectionality::new();
+    // `LocaleDirectionality::new()` only knows the likely script of commonly used locales,
+    // use the extended data so that every locale known to CLDR gets its direction.
+    let ld = icu_locid_transform::LocaleDirectionality::new_with_expander(
+        icu_locid_transform::LocaleExpander::new_extended(),
+    );
 
     let locids = locales
         .iter()
